@@ -830,6 +830,105 @@ func runH12SlowCreatedVsTeardown(vt *vhT) {
 	}
 }
 
+
+// runH12LookupStalledPastExpiry: peer A's permission expires into a slow OnPermissionDeleted handler (it runs under the
+// permission lock); peer B, whose permission is still good, sends now, and its lookup waits for the lock until after B's own
+// permission has run out.  Nothing may then reach the client: the lookup must judge the entry by the clock at lookup time.
+func runH12LookupStalledPastExpiry(vt *vhT) {
+	vt.OpSync("slowcb OnPermissionDeleted lookup-stalled-past-expiry 1")
+	defer vt.Obs("ok")
+	const lifeA, lifeB = 200 * time.Millisecond, 700 * time.Millisecond
+	peerAIP := net.ParseIP("127.0.0.2")
+	entered, release := make(chan struct{}), make(chan struct{})
+	m, err := NewManager(ManagerConfig{
+		LeveledLogger: logging.NewDefaultLoggerFactory().NewLogger("h12"),
+		AllocatePacketConn: func(AllocateListenerConfig) (net.PacketConn, net.Addr, error) {
+			c, err := net.ListenPacket("udp4", "0.0.0.0:0")
+			if err != nil {
+				return nil, nil, err
+			}
+
+			return c, c.LocalAddr(), nil
+		},
+		AllocateListener: func(AllocateListenerConfig) (net.Listener, net.Addr, error) { return nil, nil, net.ErrClosed },
+		AllocateConn:     func(AllocateConnConfig) (net.Conn, error) { return nil, net.ErrClosed },
+		EventHandler: EventHandler{OnPermissionDeleted: func(_, _ net.Addr, _, _, _ string, _ net.Addr, ip net.IP) {
+			if ip.Equal(peerAIP) {
+				close(entered)
+				<-release
+			}
+		}},
+	})
+	if err != nil {
+		vt.Alarm("h12-setup", "NewManager: %v", err)
+
+		return
+	}
+	turnSock, e1 := net.ListenPacket("udp4", "127.0.0.1:0")
+	client, e2 := net.ListenPacket("udp4", "127.0.0.1:0")
+	peerB, e3 := net.ListenPacket("udp4", "127.0.0.3:0")
+	if e1 != nil || e2 != nil || e3 != nil {
+		vt.Note("lookup-stalled scenario void: sockets %v %v %v", e1, e2, e3)
+
+		return
+	}
+	defer func() { _ = m.Close(); _ = client.Close(); _ = peerB.Close(); _ = turnSock.Close() }()
+	got := make(chan int, 16)
+	go func() {
+		buf := make([]byte, 2048)
+		for {
+			n, _, err := client.ReadFrom(buf)
+			if err != nil {
+				return
+			}
+			got <- n
+		}
+	}()
+	a, err := m.CreateAllocation(&FiveTuple{SrcAddr: client.LocalAddr(), DstAddr: turnSock.LocalAddr()}, turnSock, proto.ProtoUDP, 0, time.Minute, "", "", proto.RequestedFamilyIPv4)
+	if err != nil {
+		vt.Alarm("h12-setup", "CreateAllocation: %v", err)
+
+		return
+	}
+	ra, _ := a.relayPacketConn.LocalAddr().(*net.UDPAddr)
+	relay := &net.UDPAddr{IP: net.IPv4(127, 0, 0, 1), Port: ra.Port}
+	start := time.Now()
+	_ = a.AddPermission(NewPermission(&net.UDPAddr{IP: peerAIP, Port: 1}, m.log, lifeA))
+	_ = a.AddPermission(NewPermission(peerB.LocalAddr(), m.log, lifeB))
+	_, _ = peerB.WriteTo([]byte("early"), relay)
+	select {
+	case <-got:
+	case <-time.After(3 * time.Second):
+		vt.Note("lookup-stalled scenario void: a permitted peer was not relayed")
+
+		return
+	}
+	select {
+	case <-entered:
+	case <-time.After(3 * time.Second):
+		vt.Note("lookup-stalled scenario void: permission A did not expire")
+		close(release)
+
+		return
+	}
+	if time.Since(start) > lifeB-200*time.Millisecond {
+		vt.Note("lookup-stalled scenario void: machine too slow for this schedule")
+		close(release)
+
+		return
+	}
+	_, _ = peerB.WriteTo([]byte("late"), relay) // B's permission is good for another ~0.4 s, but the lookup waits
+	time.Sleep(time.Until(start.Add(lifeB + 500*time.Millisecond)))
+	close(release)
+	select {
+	case n := <-got:
+		vt.Alarm("expired-entry-still-authorises", "the client received %d bytes %v after the sender's permission had run out: the lookup that waited for the permission lock "+
+			"judged the entry by a clock value taken before the wait", n, time.Since(start.Add(lifeB)).Round(time.Millisecond))
+	case <-time.After(time.Second):
+	}
+	vt.Stat("h12.lookup-stalled")
+}
+
 func TestVerifH12(t *testing.T) {
 	vt := vhOpen("h12")
 	defer vt.Close()
@@ -857,6 +956,8 @@ func TestVerifH12(t *testing.T) {
 	runH12RefreshOnEndingAllocation(vt)
 	vt.Flush()
 	runH12SlowCreatedVsTeardown(vt)
+	vt.Flush()
+	runH12LookupStalledPastExpiry(vt)
 	vt.Flush()
 	rounds := 1500
 	if vt.Thorough() {
